@@ -50,3 +50,46 @@ Definition check_read (c : ads * list rskel) : bool :=
 (* the round trip inside the model, on the same skeleton: exactly one construct comes back *)
 Definition check_one (c : options * skel) : bool :=
   let '(o, f) := c in Nat.eqb (length (read_skel (write_skel o f))) 1.
+
+(* ------------------------------------------------------------------ the guard of the round-trip theorems, as a test *)
+Definition r_okcb (c : ascii) : bool :=
+  negb (Ascii.eqb c " ") && negb (Ascii.eqb c ":") && negb (Ascii.eqb c "@").
+Fixpoint r_goodb (s : string) : bool :=
+  match s with EmptyString => true | String c r => r_okcb c && r_goodb r end.
+Definition niceb (s : string) : bool := match s with EmptyString => false | _ => r_goodb s end.
+Definition nice_optb (o : option string) : bool := match o with Some s => niceb s | None => true end.
+Definition isnone {A} (o : option A) : bool := match o with None => true | Some _ => false end.
+Fixpoint nodupb (l : list nat) : bool :=
+  match l with [] => true | x :: r => negb (inb x r) && nodupb r end.
+
+Definition bniceb (b : option bnds) : bool :=
+  match b with Some bb => nice_optb (b_ncvar bb) && nice_optb (b_ncdim bb) | None => true end.
+
+Definition con_wfb (f : skel) (c : con) : bool :=
+  nice_optb (c_std c) && nice_optb (c_ncvar c) && bniceb (c_bounds c) &&
+  match c_type c with
+  | CDim => match c_axes c with [a] => Nat.ltb a (length (f_axes f)) | _ => false end && isnone (c_strlen c)
+  | CAux => match c_axes c with [] => false | _ => true end && forallb (fun a => inb a (f_data_axes f)) (c_axes c)
+  | CMeasure => forallb (fun a => inb a (f_data_axes f)) (c_axes c) && isnone (c_bounds c) && isnone (c_strlen c)
+                && niceb (c_measure c)
+  | CFanc => forallb (fun a => inb a (f_data_axes f)) (c_axes c) && isnone (c_bounds c) && isnone (c_strlen c)
+  end.
+
+Definition r_ax_of (f : skel) (a : nat) : axis :=
+  nth a (f_axes f) {| a_size := 0; a_ncdim := None; a_unlim := false |}.
+
+Definition wfb (f : skel) : bool :=
+  nodupb (f_data_axes f) && forallb (fun a => Nat.ltb a (length (f_axes f))) (f_data_axes f) &&
+  forallb (fun a => inb a (f_data_axes f) ||
+                    (match find_dimcoord a (f_cons f) with Some _ => true | None => false end
+                     && Z.eqb (a_size (r_ax_of f a)) 1 && negb (a_unlim (r_ax_of f a)))) (seq 0 (length (f_axes f))) &&
+  forallb (con_wfb f) (f_cons f) &&
+  forallb (fun m => forallb (fun a => Nat.ltb a (length (f_axes f))) (m_axes m) && niceb (m_method m)) (f_cms f) &&
+  nice_optb (f_std f) && nice_optb (f_ncvar f) && forallb (fun a => nice_optb (a_ncdim a)) (f_axes f).
+
+(* no two dimension coordinates on one axis *)
+Definition dim_uniqueb (f : skel) : bool :=
+  nodupb (flat_map (fun c => match c_type c, c_axes c with CDim, [a] => [a] | _, _ => [] end) (f_cons f)).
+
+(* every in-fragment case the implementation ran on lies inside the guard of C01_roundtrip_core *)
+Definition check_wf (c : options * skel) : bool := let '(o, f) := c in wfb f && dim_uniqueb f.
